@@ -26,6 +26,12 @@ type BRec struct{ Rec }
 // IsBoolFlag marks the recorder as a flag.
 func (b *BRec) IsBoolFlag() bool { return true }
 
+// VRec is a recorder that HAS the IsBoolFlag method but answers false: it takes a value like any valued option.
+type VRec struct{ Rec }
+
+// IsBoolFlag says: not a flag.
+func (v *VRec) IsBoolFlag() bool { return false }
+
 // ExitSentinel is what the exit stub panics with: the production exiter never returns either.
 type ExitSentinel struct{ Code int }
 
@@ -160,6 +166,11 @@ func DeclareContainers(c *cli.Cmd, d *Decls, envPrefix string, builtin bool) []H
 		} else if builtin {
 			p := c.Strings(cli.StringsOpt{Name: o.DeclName(), Value: shared, EnvVar: env, SetByUser: set})
 			hs = append(hs, Holder{Key: d.OptKey(i), Set: set, Get: func() []string { return *p }})
+		} else if i%2 == 1 {
+			// every other valued option is a type that has IsBoolFlag() and answers false
+			v := &VRec{}
+			c.Var(cli.VarOpt{Name: o.DeclName(), Value: v, EnvVar: env, SetByUser: set})
+			hs = append(hs, Holder{Key: d.OptKey(i), Rec: &v.Rec, Set: set})
 		} else {
 			v := &Rec{}
 			c.Var(cli.VarOpt{Name: o.DeclName(), Value: v, EnvVar: env, SetByUser: set})
@@ -214,6 +225,11 @@ func RunRealInner(out *Outcome, d *Decls, spec string, argv []string, envPrefix 
 }
 
 func runRealInner(out *Outcome, d *Decls, spec string, argv []string, envPrefix string, builtin bool) {
+	runRealFull(out, d, spec, append([]string{"app"}, argv...), envPrefix, builtin)
+}
+
+// runRealFull takes the complete vector (program name first) and hands that very slice to Run.
+func runRealFull(out *Outcome, d *Decls, spec string, full []string, envPrefix string, builtin bool) {
 	app := cli.App("app", "")
 	app.ErrorHandling = flag.ContinueOnError
 	app.Spec = spec
@@ -226,7 +242,7 @@ func runRealInner(out *Outcome, d *Decls, spec string, argv []string, envPrefix 
 			out.Raw[h.Key] = append([]string{}, h.Vals()...)
 		}
 	}
-	err := app.Run(append([]string{"app"}, argv...))
+	err := app.Run(full)
 	if err != nil {
 		out.HasErr = true
 		out.Err = err.Error()
